@@ -397,6 +397,52 @@ def cmp_c04_code(acc, V, src, fileid, crec, co, opc, insts):
         acc.distinct.add(sha(C.hexs(code)))
 
 
+def sparse_c04(acc, V, src, fileid, crec, co, opc):
+    """Large code objects (iterating them is quadratic in xdis): labels as a set, and every jump instruction
+    decoded on its own with the labels passed in."""
+    from xdis.bytecode import get_logical_instruction_at_offset
+
+    acc.evaluations += 1
+    acc.count("c04_sparse_checks_on_large_code")
+    code = co.co_code
+    tl = set(crec["labels"])
+    try:
+        ol = set(opc.findlabels(code, opc))
+    except Exception as e:
+        acc.mismatch("C04|%s|findlabels-raises:%s" % (src, type(e).__name__), v=vs(V), file=fileid, path=crec["path"])
+        return
+    if ol != tl:
+        acc.mismatch("C04|%s|labels|large-code" % src, v=vs(V), file=fileid, path=crec["path"],
+                     missing=sorted(tl - ol)[:8], extra=sorted(ol - tl)[:8])
+    if not crec.get("inst_ok"):
+        return
+    prev_ext = {}
+    for t in crec["inst"]:
+        pass
+    insts = crec["inst"]
+    for k, t in enumerate(insts):
+        if t[4] != "j":
+            continue
+        # start decoding at the first EXTENDED_ARG prefix of this instruction
+        j = k
+        while j > 0 and insts[j - 1][2] == "EXTENDED_ARG":
+            j -= 1
+        try:
+            got = list(get_logical_instruction_at_offset(code, insts[j][0], opc, varnames=co.co_varnames, names=co.co_names,
+                                                         constants=co.co_consts, cells=(), linestarts=None, labels=list(ol)))
+        except Exception as e:
+            acc.mismatch("C04|%s|decode-raises:%s|%s" % (src, type(e).__name__, t[2]), v=vs(V), file=fileid, path=crec["path"], offset=t[0])
+            continue
+        x = got[-1]
+        if x.offset != t[0] or x.opcode != t[1]:
+            acc.mismatch("C04|%s|large-code-decode-offset" % src, v=vs(V), file=fileid, path=crec["path"], offset=t[0], observed=x.offset)
+        elif x.argval != t[5]:
+            acc.mismatch("C04|%s|target|%s" % (src, t[2]), v=vs(V), file=fileid, path=crec["path"], offset=t[0],
+                         expected=t[5], observed=x.argval, large_code=True)
+    if tl:
+        acc.distinct.add(sha(C.hexs(code)))
+
+
 def offset2line_ref(offset, linestarts):
     best = None
     for off, line in linestarts:
@@ -652,6 +698,8 @@ def cmd_diff(args):
                 if need_inst and opc is not None:
                     if crec["ncode"] > max_code:
                         acc.count("skipped_large_code")
+                        if "C04" in props and crec.get("labels") is not None:
+                            sparse_c04(acc, V, src, fileid, crec, xco, opc)
                         continue
                     try:
                         insts = xdis_instructions(xco, opc, dup_lines=False)
@@ -2717,6 +2765,178 @@ def cmd_history(args):
 
 
 CMDS["history"] = cmd_history
+
+
+
+# ---------------------------------------------------------------------------
+# reference-free invariants on the historical corpus (versions without an
+# installed interpreter: 1.0-2.6, 3.0-3.5, PyPy) - the weaker coverage bucket
+
+
+def cmd_corpusinv(args):
+    from xdis.bytecode import Bytecode
+    from xdis.disasm import get_opcode
+    from xdis.load import load_module
+
+    props = set(args["props"])
+    acc = Acc()
+    if "C01" in props:
+        MON.install_load_code()
+    out_tables = []
+    for item in args["files"]:
+        pyc, label, vtag = item["pyc"], item["label"], item["vtag"]
+        before = len(MON.load_code_pos)
+        try:
+            (version, ts, magic_int, co, is_pypy, size, sip) = load_module(pyc)
+        except BaseException as e:
+            if isinstance(e, (KeyboardInterrupt, SystemExit)):
+                raise
+            for p in sorted(props):
+                acc.mismatch("%s|corpus|load_module-raises:%s|v%s" % (p, type(e).__name__, vtag), file=label, msg=str(e)[-160:])
+            continue
+        V = tuple(version[:2])
+        try:
+            opc = get_opcode(version, is_pypy)
+        except Exception as e:
+            for p in sorted(props - {"C01"}):
+                acc.mismatch("%s|corpus|get_opcode-raises|v%s" % (p, vtag), file=label)
+            opc = None
+        if "C01" in props:
+            acc.evaluations += 1
+            fsize = os.path.getsize(pyc)
+            for pos, end in MON.load_code_pos[before:]:
+                acc.count("c01_corpus_consumed_checks")
+                if pos is not None and pos != fsize:
+                    acc.mismatch("C01|corpus|payload-not-fully-consumed|v%s" % vtag, file=label, position=pos, size=fsize)
+            for path, c in C.walk_code(co):
+                for f in C.code_fields(V):
+                    v = C.get_field(c, f)
+                    if v is C.Missing:
+                        if V >= (1, 5) or f not in ("co_stacksize", "co_firstlineno", "co_lnotab", "co_freevars", "co_cellvars"):
+                            if not (V < (2, 0) and f in ("co_freevars", "co_cellvars")):
+                                acc.mismatch("C01|corpus|field-missing:%s|v%s" % (f, vtag), file=label, path=path)
+                        continue
+                    ok = True
+                    if f in ("co_argcount", "co_posonlyargcount", "co_kwonlyargcount", "co_nlocals", "co_stacksize", "co_flags", "co_firstlineno"):
+                        ok = isinstance(v, int) and not isinstance(v, bool)
+                    elif f in ("co_consts", "co_names", "co_varnames", "co_freevars", "co_cellvars"):
+                        # Python 1.0-1.4 really stored these as lists ('[' in the file)
+                        ok = isinstance(v, tuple) or (V < (1, 5) and isinstance(v, list))
+                    elif f == "co_code":
+                        ok = isinstance(v, (bytes, str))
+                    if not ok:
+                        acc.mismatch("C01|corpus|field-type:%s:%s|v%s" % (f, type(v).__name__, vtag), file=label, path=path)
+            acc.distinct.add(sha(["c01", label]))
+        if opc is None:
+            continue
+        for path, c in C.walk_code(co):
+            code = c.co_code
+            n = len(code)
+            try:
+                insts = list(Bytecode(c, opc, dup_lines=False))
+            except BaseException as e:
+                if isinstance(e, (KeyboardInterrupt, SystemExit)):
+                    raise
+                tb = traceback.extract_tb(sys.exc_info()[2])
+                for p in sorted(props & {"C02", "C04", "C05"}):
+                    acc.mismatch("%s|corpus|Bytecode-raises:%s@%s|v%s" % (p, type(e).__name__, tb[-1].name, vtag), file=label, path=path)
+                continue
+            starts = set(i.offset for i in insts)
+            if "C02" in props:
+                acc.evaluations += 1
+                pos = 0
+                bad = None
+                for i in insts:
+                    if i.offset != pos:
+                        bad = ("offset", i.offset, pos)
+                        break
+                    pos += inst_width(opc, i.opcode)
+                if bad is None and pos != n:
+                    bad = ("end", pos, n)
+                if bad:
+                    acc.mismatch("C02|corpus|tiling:%s|v%s" % (bad[0], vtag), file=label, path=path, got=bad[1], want=bad[2])
+                else:
+                    # folded operand = sum of EXTENDED_ARG prefixes shifted + own operand
+                    ext = 0
+                    shift = 16 if V < (3, 6) else 8
+                    for i in insts:
+                        if i.arg is None:
+                            ext = 0
+                            continue
+                        raw = (code2(code, i.offset + 1) | (code2(code, i.offset + 2) << 8)) if V < (3, 6) else code2(code, i.offset + 1)
+                        want = raw | ext
+                        if i.arg != want:
+                            acc.mismatch("C02|corpus|folded-operand|v%s" % vtag, file=label, path=path, offset=i.offset, expected=want, observed=i.arg)
+                            break
+                        ext = (want << shift) if (hasattr(opc, "EXTENDED_ARG") and i.opcode == opc.EXTENDED_ARG) else 0
+                if len(insts) >= 8:
+                    acc.distinct.add(sha(["c02", C.hexs(code) if isinstance(code, bytes) else str(code)]))
+            if "C04" in props:
+                acc.evaluations += 1
+                try:
+                    labels = set(opc.findlabels(code, opc))
+                except Exception as e:
+                    acc.mismatch("C04|corpus|findlabels-raises:%s|v%s" % (type(e).__name__, vtag), file=label, path=path)
+                    labels = None
+                if labels is not None:
+                    targets = set(i.argval for i in insts if i.opcode in opc.JREL_OPS or i.opcode in opc.JABS_OPS)
+                    if labels != targets:
+                        acc.mismatch("C04|corpus|labels-vs-jump-operands|v%s" % vtag, file=label, path=path,
+                                     only_labels=sorted(labels - targets)[:6], only_operands=sorted(targets - labels)[:6])
+                    exc = set()
+                    if V >= (3, 11) and getattr(c, "co_exceptiontable", None):
+                        from xdis.bytecode import parse_exception_table
+                        exc = set(e.target for e in parse_exception_table(c.co_exceptiontable))
+                    for i in insts:
+                        if bool(i.is_jump_target) != (i.offset in labels or i.offset in exc):
+                            acc.mismatch("C04|corpus|is_jump_target-vs-labels|v%s" % vtag, file=label, path=path, offset=i.offset)
+                            break
+                    for lab in labels:
+                        if not (lab in starts or lab == n):
+                            acc.mismatch("C04|corpus|label-not-instruction-start|v%s" % vtag, file=label, path=path, label=lab)
+                            break
+                    if labels:
+                        acc.distinct.add(sha(["c04", C.hexs(code) if isinstance(code, bytes) else str(code)]))
+            if "C05" in props and V >= (1, 5):
+                acc.evaluations += 1
+                try:
+                    ls = [tuple(x) for x in opc.findlinestarts(c)]
+                except Exception as e:
+                    acc.mismatch("C05|corpus|findlinestarts-raises:%s|v%s" % (type(e).__name__, vtag), file=label, path=path)
+                    continue
+                offs = [o for o, _ in ls]
+                if offs != sorted(offs) or len(set(offs)) != len(offs):
+                    acc.mismatch("C05|corpus|offsets-not-increasing|v%s" % vtag, file=label, path=path, linestarts=ls[:10])
+                sl = dict(ls)
+                for i in insts:
+                    if i.starts_line != sl.get(i.offset):
+                        acc.mismatch("C05|corpus|starts_line-vs-findlinestarts|v%s" % vtag, file=label, path=path, offset=i.offset,
+                                     stream=i.starts_line, table=sl.get(i.offset))
+                        break
+                lt = C.get_field(c, "co_lnotab")
+                if V < (3, 6) and lt is not C.Missing and isinstance(lt, (bytes, str)):
+                    raw = lt if isinstance(lt, bytes) else lt.encode("latin-1")
+                    out_tables.append({"label": label, "path": path, "vtag": vtag, "code_len": n, "firstlineno": c.co_firstlineno,
+                                       "table": C.hexs(raw), "xdis": [list(x) for x in ls]})
+                if len(ls) >= 2:
+                    acc.distinct.add(sha(["c05", ls]))
+        if len(acc.samples) < 3:
+            acc.sample({"file": label, "version": vtag})
+    res = acc.result()
+    res["lnotabs"] = out_tables
+    if "C01" in props:
+        res["counters"]["load_code_monitor_calls"] = MON.load_code_calls
+    return res
+
+
+def code2(code, i):
+    if i >= len(code):
+        return 0
+    b = code[i]
+    return ord(b) if isinstance(b, str) else b
+
+
+CMDS["corpusinv"] = cmd_corpusinv
 
 
 if __name__ == "__main__":
